@@ -735,6 +735,91 @@ static bool exec_sleep(const std::string& prim, int ex, vt::Rng& r) {
 }
 
 
+
+// ------------------------------------------------------------------------------------------------ thread_shutdown (C04)
+// Targets sleep in a loop; the controller (main thread) marks them with thread_shutdown(th, true) while they are in a 5 s sleep
+// or between two sleeps, waits until each has completed three more sleeps (each is capped at 10 ms for a marked thread: the
+// wait is bounded by PROGRESS, 10 s, not by a wall-clock margin), unmarks them, waits for two ordinary short sleeps and stops.
+// Judged by spec/Trace_ShutdownA.tla.
+static bool exec_shutdown(const std::string& prim, int ex, vt::Rng& r) {
+    int nth = 1 + (int)r.below(4);
+    int nvc = 1 + (int)r.below(g_vcpus);
+    vt::Ev("Reset").s("prim", prim).i("ex", ex).i("n", nth).i("vcpus", nvc);
+    struct Tgt { vtp::Worker w; std::atomic<int> count{0}; std::atomic<int64_t> cur_us{0}; int vidx = 0; };
+    std::vector<std::unique_ptr<Tgt>> ts; std::vector<vtp::Worker*> ws;
+    std::atomic<int> phase{0}; std::atomic<bool> stop{false};
+    for (int i = 0; i < nth; i++) {
+        ts.emplace_back(new Tgt()); auto t = ts.back().get(); t->w.id = i + 1; t->vidx = (int)r.below(nvc); ws.push_back(&t->w);
+        uint64_t wseed = r.next();
+        t->w.body = [t, wseed, &phase, &stop] {
+            vt::Rng rr(wseed);
+            while (!stop.load()) {
+                int64_t us = phase.load() == 1 ? 5000000 : 1000 + (int64_t)rr.below(3) * 1000;
+                if (rr.below(5) == 0) thread_yield();
+                uint64_t t0 = photon::__update_now();
+                t->w.where = "usleep";
+                vt::Ev("Inv").i("t", t->w.id).s("op", "usleep").i("us", us);
+                t->cur_us = us;
+                errno = 0;
+                int ret = thread_usleep((uint64_t)us);
+                int en = ret < 0 ? errno : 0;
+                t->cur_us = 0;
+                uint64_t t1 = photon::__update_now();
+                vt::Ev("Resp").i("t", t->w.id).s("op", "usleep").i("r", ret).i("en", en).i("dt", (int64_t)(t1 - t0));
+                t->count++;
+            }
+            t->w.where = "done";
+        };
+    }
+    { vtp::GateGuard gg; for (auto& t : ts) vtp::spawn_on(&t->w, g_vc.vc[t->vidx]); }
+    auto wait_counts = [&](int more, const char* what) -> bool {
+        std::vector<int> base; for (auto& t : ts) base.push_back(t->count.load());
+        uint64_t waited = 0;
+        for (;;) {
+            bool all = true;
+            for (size_t i = 0; i < ts.size(); i++) if (ts[i]->count.load() < base[i] + more) all = false;
+            if (all) return true;
+            if (waited > 10 * 1000 * 1000) {
+                vt::Arr a; for (size_t i = 0; i < ts.size(); i++) if (ts[i]->count.load() < base[i] + more) a.i(ts[i]->w.id);
+                vt::Ev("Hang").raw("blocked", a.str()).s("where", what).s("what", "shutdown");
+                vt::flush();
+                return false;
+            }
+            thread_usleep(500); waited += 500;
+        }
+    };
+    thread_usleep(500 + r.below(3000));
+    phase = 1;                                   // from now on the targets ask for 5 s
+    thread_usleep(r.below(4000));                // some are inside a 5 s sleep, some inside a short one, some in between
+    for (auto& t : ts) {
+        vt::Ev("ShutInv").i("target", t->w.id).b("flag", true).i("st", (int)thread_stat(t->w.th));
+        thread_shutdown(t->w.th, true);
+        vt::Ev("ShutResp").i("target", t->w.id).b("flag", true);
+        if (r.coin(30)) thread_usleep(r.below(1500));
+    }
+    if (!wait_counts(3, "marked thread does not complete its capped sleeps")) return false;
+    phase = 2;
+    for (auto& t : ts) {
+        vt::Ev("ShutInv").i("target", t->w.id).b("flag", false).i("st", (int)thread_stat(t->w.th));
+        thread_shutdown(t->w.th, false);
+        vt::Ev("ShutResp").i("target", t->w.id).b("flag", false);
+    }
+    // a target that asked for 5 s just before it was unmarked (and was not asleep yet when the unmarking call looked) would now
+    // sleep its 5 s, legitimately: release it (Kick: the specification then judges that sleep as "in transition")
+    thread_usleep(3000);
+    for (auto& t : ts)
+        if (t->cur_us.load() >= 5000000) {
+            vt::Ev("Kick").i("target", t->w.id);
+            thread_interrupt(t->w.th, 2000);
+        }
+    if (!wait_counts(3, "unmarked thread does not sleep normally")) return false;
+    stop = true;
+    if (!vtp::wait_done(ws, 10 * 1000 * 1000, prim.c_str())) return false;
+    vtp::join_all(ws);
+    vt::Ev("Quiesce").raw("sleeping", "[]");
+    return true;
+}
+
 // ------------------------------------------------------------------------------------------------ conductor (scripted sequences)
 // All workers live on ONE vCPU, where photon threads switch only at blocking points.  The conductor (main thread) executes a
 // script step by step: it tells one worker to perform one operation (or a compound of two back-to-back operations), lets the
@@ -1031,6 +1116,7 @@ int main(int argc, char** argv) {
         else if (prim == "rwrace") ok = exec_rwrace(prim, ex, r);
         else if (prim[0] == 'c' && prim != "cv" && prim != "cvspin") ok = exec_conduct(prim, ex, r, scripts.empty() ? nullptr : &scripts[ex % scripts.size()]);
         else if (prim == "sleep") ok = exec_sleep(prim, ex, r);
+        else if (prim == "shutdown") ok = exec_shutdown(prim, ex, r);
         else ok = os_clients ? exec_lock_os(prim, ex, r) : exec_lock_photon(prim, ex, r);
         if (!ok) { rc = 4; break; }
     }
